@@ -215,7 +215,8 @@ func isolationMatrix() []isoCell {
 	}
 	add("inline/object", oneFieldBundle(fld("inner", inlineObj())))
 	add("inline/object-named", oneFieldBundle(fld("inner", inlineObj().with(func(t *jT) { t.InlineName = "Custom" }))))
-	add("inline/object-described", oneFieldBundle(fld("inner", inlineObj().with(func(t *jT) { t.Inline.Desc = "Inline description" }))))
+	// (a description inside the field body belongs to the property: the merged scope resolves it there first)
+	add("inline/object-described", oneFieldBundle(&jF{Name: "inner", T: inlineObj(), Desc: "Inline description"}))
 	add("inline/array-object", oneFieldBundle(fld("inners", tArr(inlineObj()))))
 	add("inline/array-object-named", oneFieldBundle(fld("inners", tArr(inlineObj().with(func(t *jT) { t.InlineName = "Inner" })))))
 	add("inline/map-object", oneFieldBundle(fld("inners", tMap(inlineObj()))))
